@@ -8,8 +8,12 @@ package device
 //@ ghost var outLen int
 //@ ghost var sounding fun[byte]set[byte]
 //@ ghost var sigs int
+// last value the receiver got per controller number (C07; keyed by controller number only: the property's histories keep the channel fixed)
+//@ ghost var ccv fun[byte]byte
+// controller numbers that belong to a bidirectional axis (constant; C07's "distinct controller numbers")
+//@ ghost var bidiCC set[byte]
 
-//@ on send Device.outputEvents(e) { out = upd(out, outLen, evOf(e)); outLen = outLen + 1; sounding = rx(sounding, evOf(e)) }
+//@ on send Device.outputEvents(e) { out = upd(out, outLen, evOf(e)); outLen = outLen + 1; sounding = rx(sounding, evOf(e)); ccv = rxcc(ccv, evOf(e)) }
 //@ on send Device.sigs(s) { sigs = sigs + 1 }
 
 // C05: every emitted message is a complete three-byte channel message with valid status and data bytes
@@ -22,6 +26,8 @@ package device
 //@   else if st == 0x80 || st == 0x90 then upd(s, ch, upd(s[ch], e.b1, false))
 //@   else if st == 0xB0 && e.b1 == 123 then upd(s, ch, emptyset("set[byte]"))
 //@   else s
+
+//@ spec fn rxcc(c fun[byte]byte, e Ev) fun[byte]byte := if e.b0 & 0xF0 == 0xB0 then upd(c, e.b1, e.b2) else c
 
 //@ pred modeOK(m config.CollisionMode) :=
 //@   m == config.CollisionOff || m == config.CollisionNoRepeat || m == config.CollisionInterrupt || m == config.CollisionRetrigger
@@ -70,10 +76,11 @@ package device
 //@   ensures [C03,C04] sounds && cut ==> outLen == old(outLen) + 2 && out == upd(upd(old(out), old(outLen), offEv), old(outLen) + 1, onEv)
 //@   ensures [C02,C03] sounds ==> keys(d.noteTracker) == upd(old(keys(d.noteTracker)), code, true) && vals(d.noteTracker) == upd(old(vals(d.noteTracker)), code, mkarr(n, ch))
 //@   ensures [C03] sounds ==> keys(d.activeNotesCounter[ch]) == upd(old(keys(d.activeNotesCounter[ch])), n, true) && vals(d.activeNotesCounter[ch]) == upd(old(vals(d.activeNotesCounter[ch])), n, c + 1)
+//@   ensures [C07] ccv == old(ccv)
 //@   ensures wf(d)
-//@   ensures [C01,C03] old(InvCore(d)) && !old(has(d.noteTracker, code)) ==> InvCore(d)
+//@   ensures [C01!,C03!] old(InvCore(d)) && !old(has(d.noteTracker, code)) ==> InvCore(d)
 //@   safety [C01,C05]
-//@   modifies d.noteTracker[_], d.activeNotesCounter[ch][_], out, outLen, sounding
+//@   modifies d.noteTracker[_], d.activeNotesCounter[ch][_], out, outLen, sounding, ccv
 
 //@ func (*Device).NoteOff
 //@   requires wf(d) && ev != nil
@@ -89,10 +96,11 @@ package device
 //@   ensures [C01,C02] keys(d.noteTracker) == upd(old(keys(d.noteTracker)), code, false) && vals(d.noteTracker) == old(vals(d.noteTracker))
 //@   ensures [C03] tracked ==> keys(d.activeNotesCounter[ch]) == upd(old(keys(d.activeNotesCounter[ch])), note, true) && vals(d.activeNotesCounter[ch]) == upd(old(vals(d.activeNotesCounter[ch])), note, c - 1)
 //@   ensures [C03] !tracked ==> keys(d.activeNotesCounter[ch]) == old(keys(d.activeNotesCounter[ch])) && vals(d.activeNotesCounter[ch]) == old(vals(d.activeNotesCounter[ch]))
+//@   ensures [C07] ccv == old(ccv)
 //@   ensures wf(d)
-//@   ensures [C01,C03] old(InvCore(d)) ==> InvCore(d)
+//@   ensures [C01!,C03!] old(InvCore(d)) ==> InvCore(d)
 //@   safety [C01,C05]
-//@   modifies d.noteTracker[_], d.activeNotesCounter[ch][_], out, outLen, sounding
+//@   modifies d.noteTracker[_], d.activeNotesCounter[ch][_], out, outLen, sounding, ccv
 
 // ---- analog (key-emulating axis) notes
 
@@ -105,10 +113,11 @@ package device
 //@   ensures [C04,C08] !sounds ==> outLen == old(outLen) && out == old(out) && keys(d.analogNoteTracker) == old(keys(d.analogNoteTracker)) && vals(d.analogNoteTracker) == old(vals(d.analogNoteTracker))
 //@   ensures [C04,C08] sounds ==> outLen == old(outLen) + 1 && out == upd(old(out), old(outLen), mkev(0x90 | ch, n, 64))
 //@   ensures [C02,C08] sounds ==> keys(d.analogNoteTracker) == upd(old(keys(d.analogNoteTracker)), identifier, true) && vals(d.analogNoteTracker) == upd(old(vals(d.analogNoteTracker)), identifier, mkarr(n, ch))
+//@   ensures [C07] ccv == old(ccv)
 //@   ensures wf(d)
-//@   ensures [C01,C08] old(InvCore(d)) && !old(has(d.analogNoteTracker, identifier)) ==> InvCore(d)
+//@   ensures [C01!] old(InvCore(d)) && !old(has(d.analogNoteTracker, identifier)) ==> InvCore(d)
 //@   safety [C01,C05]
-//@   modifies d.analogNoteTracker[_], out, outLen, sounding
+//@   modifies d.analogNoteTracker[_], out, outLen, sounding, ccv
 
 //@ func (*Device).AnalogNoteOff
 //@   requires wf(d) && ev != nil
@@ -118,12 +127,13 @@ package device
 //@   ensures [C02,C08] !tracked ==> outLen == old(outLen) && out == old(out)
 //@   ensures [C02,C08] tracked ==> outLen == old(outLen) + 1 && out == upd(old(out), old(outLen), mkev(0x80 | ch, note, 0))
 //@   ensures [C01,C02,C08] keys(d.analogNoteTracker) == upd(old(keys(d.analogNoteTracker)), identifier, false) && vals(d.analogNoteTracker) == old(vals(d.analogNoteTracker))
+//@   ensures [C07] ccv == old(ccv)
 //@   ensures wf(d)
-//@   ensures [C01,C08] old(InvCore(d)) ==> InvCore(d)
+//@   ensures [C01!] old(InvCore(d)) ==> InvCore(d)
 //@   safety [C01,C05]
-//@   modifies d.analogNoteTracker[_], out, outLen, sounding
+//@   modifies d.analogNoteTracker[_], out, outLen, sounding, ccv
 
-// ---- state actions: they emit nothing (frame: out, outLen, sounding are not in `modifies`) and change only their own parameter
+// ---- state actions: they emit nothing (frame: out, outLen, sounding, ccv are not in `modifies`) and change only their own parameter
 
 //@ func (*Device).OctaveDown
 //@   requires wf(d)
@@ -243,8 +253,10 @@ package device
 //@   requires wf(d)
 //@   let ch := d.channel
 //@   ensures [C01,C13] panicOut(old(out), old(outLen), out, outLen, old(sounding), sounding, ch)
+//@   ensures [C07] ccv == upd(old(ccv), 123, 0)
+//@   loop 1 invariant ccv == upd(old(ccv), 123, 0)
 //@   ensures wf(d)
-//@   ensures [C01] old(InvCore(d)) ==> InvCore(d)
+//@   ensures [C01!] old(InvCore(d)) ==> InvCore(d)
 //@   loop 1 invariant note <= 128
 //@   loop 1 invariant outLen == old(outLen) + 1 + int(note)
 //@   loop 1 invariant out[old(outLen)] == mkev(0xB0 | ch, 123, 0)
@@ -252,7 +264,7 @@ package device
 //@   loop 1 invariant forall i int :: uint64(i - old(outLen)) >= uint64(1 + int(note)) ==> out[i] == old(out)[i]
 //@   loop 1 invariant sounding == upd(old(sounding), ch, emptyset("set[byte]"))
 //@   safety [C05,C13]
-//@   modifies out, outLen, sounding, d.externalNoteTracker, heap("map[byte]map[byte]bool"), heap("map[byte]bool")
+//@   modifies out, outLen, sounding, ccv, d.externalNoteTracker
 
 // ---- pair detection (C04): both keys of an up/down pair held resets that parameter, in this priority order
 
@@ -317,10 +329,11 @@ package device
 //@   ensures [C07] d.ccLearning == (action == config.Learning || old(d.ccLearning))
 //@   ensures [C02,C13] action != config.Panic ==> outLen == old(outLen) && out == old(out) && sounding == old(sounding)
 //@   ensures [C13] action == config.Panic ==> panicOut(old(out), old(outLen), out, outLen, old(sounding), sounding, old(d.channel))
+//@   ensures [C07] ccv == old(ccv) || ccv == upd(old(ccv), 123, 0)
 //@   ensures wf(d)
-//@   ensures [C01] old(InvCore(d)) ==> InvCore(d)
+//@   ensures [C01!] old(InvCore(d)) ==> InvCore(d)
 //@   safety [C04,C13]
-//@   modifies d.octave, d.semitone, d.channel, d.mapping, d.ccLearning, out, outLen, sounding, d.externalNoteTracker, heap("map[byte]map[byte]bool"), heap("map[byte]bool")
+//@   modifies d.octave, d.semitone, d.channel, d.mapping, d.ccLearning, out, outLen, sounding, ccv, d.externalNoteTracker
 
 //@ func (*Device).invokeActionRelease
 //@   requires wf(d) && tableOK(d)
@@ -328,6 +341,9 @@ package device
 //@   ensures wf(d)
 //@   safety [C04]
 //@   modifies d.ccLearning
+
+// ---- bidirectional CC (C07): a controller marked as zeroed is zero at the receiver, and only controllers of bidirectional axes are ever marked
+//@ pred zeroedOK(d *Device) := forall x byte :: d.ccZeroed[x] ==> ccv[x] == 0 && bidiCC[x] && x != 123
 
 // ---- key events
 
@@ -399,10 +415,11 @@ package device
 //@   ensures [C04] press && isAction && !exits && !pair && action == config.MappingDown ==> d.mapping == (if old(d.mapping) == 0 then 0 else old(d.mapping) - 1)
 //@   ensures [C13] press && isAction && !exits && !pair && action == config.Panic ==> panicOut(old(out), old(outLen), out, outLen, old(sounding), sounding, old(d.channel))
 //@   ensures [C13] press && isAction && !exits && !pair && action == config.Panic ==> keys(d.noteTracker) == old(keys(d.noteTracker)) && vals(d.noteTracker) == old(vals(d.noteTracker)) && d.octave == old(d.octave) && d.semitone == old(d.semitone) && d.channel == old(d.channel) && d.mapping == old(d.mapping)
+//@   ensures [C07] old(zeroedOK(d)) ==> zeroedOK(d)
 //@   ensures wf(d) && tableOK(d)
-//@   ensures [C01] old(Inv(d)) && old(envKey(d, ie)) ==> Inv(d)
+//@   ensures [C01!] old(Inv(d)) && old(envKey(d, ie)) ==> Inv(d)
 //@   safety [C01,C05]
-//@   modifies d.keyTracker[_], d.actionTracker[_], d.noteTracker[_], d.activeNotesCounter[_][_], d.octave, d.semitone, d.channel, d.mapping, d.ccLearning, d.multiNote, heap("[]int"), heap("*[1]int"), out, outLen, sounding, sigs, d.externalNoteTracker, heap("map[byte]map[byte]bool"), heap("map[byte]bool")
+//@   modifies d.keyTracker[_], d.actionTracker[_], d.noteTracker[_], d.activeNotesCounter[_][_], d.octave, d.semitone, d.channel, d.mapping, d.ccLearning, d.multiNote, heap("[]int"), heap("*[1]int"), out, outLen, sounding, ccv, sigs, d.externalNoteTracker
 
 // ---- axis events
 
@@ -428,13 +445,63 @@ package device
 //@   requires wf(d) && tableOK(d) && ie != nil && cfgRanges(d.config) && cfgDz(d.config) && lavOK(d.config, d.lastAnalogValue) && envAbs(d, ie)
 //@   ensures lavOK(d.config, d.lastAnalogValue)
 //@   cut load(.DeadzoneAtCenter) [C05,C06] !isNaN(value) && value >= -1.0 && value <= 1.0 && (!canBeNegative ==> value >= 0.0) && (canBeNegative <==> min < 0)
+//@   cut load(.DeadzoneAtCenter) [C06] (ie.Event.Value == max ==> value == 1.0) && (ie.Event.Value == min && min < 0 ==> value == -1.0) && (ie.Event.Value == 0 ==> value == 0.0)
 //@   cut load(.Deadzones) [C05,C06] !isNaN(value) && value >= -1.0 && value <= 1.0 && (!canBeNegative ==> value >= 0.0)
+//@   cut load(.Deadzones) [C06] (ie.Event.Value == max ==> value == 1.0) && (ie.Event.Value == min && min < 0 ==> value == -1.0) && (ie.Event.Value == 0 && min < 0 ==> value == 0.0) && (ie.Event.Value == 0 && min >= 0 ==> value == (if analog.DeadzoneAtCenter then -1.0 else 0.0))
 //@   cut load(.lastAnalogValue) [C05,C06] (isNaN(value) || value >= -1.0078) && (isNaN(value) || value <= 1.0038) && (isNaN(value) || canBeNegative || value >= 0.0)
+// end stops map exactly to the ends, the rest position exactly to 0, for every deadzone in [0,1)
+//@   cut load(.lastAnalogValue) [C06] deadzone >= 0.0 && deadzone < 1.0 ==> (ie.Event.Value == max ==> value == 1.0) && (ie.Event.Value == min && min < 0 ==> value == -1.0) && (ie.Event.Value == 0 && min < 0 ==> value == 0.0) && (ie.Event.Value == 0 && min >= 0 && !analog.DeadzoneAtCenter ==> value == 0.0) && (ie.Event.Value == 0 && min >= 0 && analog.DeadzoneAtCenter ==> value == -1.0)
 //@   cut load(.MappingType) [C05,C06] (isNaN(value) || value >= -1.0078) && (isNaN(value) || value <= 1.0078) && (isNaN(value) || canBeNegative || value >= -0.0039) && (isNaN(value) || canBeNegative || value <= 1.0038)
+//@   cut load(.MappingType) [C06] deadzone >= 0.0 && deadzone < 1.0 && !analog.FlipAxis ==> (ie.Event.Value == max ==> value == 1.0) && (ie.Event.Value == min && min < 0 ==> value == -1.0) && (ie.Event.Value == 0 && min < 0 ==> value == 0.0) && (ie.Event.Value == 0 && min >= 0 && !analog.DeadzoneAtCenter ==> value == 0.0)
+//@   cut load(.MappingType) [C06] deadzone >= 0.0 && deadzone < 1.0 && analog.FlipAxis && canBeNegative ==> (ie.Event.Value == max ==> value == -1.0) && (ie.Event.Value == min && min < 0 ==> value == 1.0)
+//@   cut load(.MappingType) [C06] deadzone >= 0.0 && deadzone < 1.0 && analog.FlipAxis && !canBeNegative ==> (ie.Event.Value == max ==> value == 0.0) && (ie.Event.Value == 0 && !analog.DeadzoneAtCenter ==> value == 1.0)
 //@   ensures wf(d) && tableOK(d)
-//@   ensures [C01] old(Inv(d)) ==> Inv(d)
+//@   ensures [C01!] old(Inv(d)) ==> Inv(d)
+// ---- C07: bidirectional CC. v is the shaped, flipped value the switch sees; neg says which side it is on.
+//@   let a := d.config.KeyMappings[d.mapping].Analog[ie.Source.Name][ie.Event.Code]
+//@   let isBidiCC := has(d.config.KeyMappings[d.mapping].Analog[ie.Source.Name], ie.Event.Code) && a.MappingType == config.AnalogCC && a.Bidirectional
+//@   let chP := (d.channel + a.ChannelOffset) % 16
+//@   let chN := (d.channel + a.ChannelOffsetNeg) % 16
+//@   ensures [C07] isBidiCC && outLen != old(outLen) && bidiSideNeg(canBeNegative, local(value)) ==> out[old(outLen)].b0 == 0xB0 | chN && out[old(outLen)].b1 == a.CCNeg
+//@   ensures [C07] isBidiCC && outLen != old(outLen) && !bidiSideNeg(canBeNegative, local(value)) ==> out[old(outLen)].b0 == 0xB0 | chP && out[old(outLen)].b1 == a.CC
+//@   ensures [C07] isBidiCC && outLen != old(outLen) && bidiSideNeg(canBeNegative, local(value)) && !old(d.ccZeroed[a.CC]) ==> outLen == old(outLen) + 2 && out[old(outLen) + 1] == mkev(0xB0 | chP, a.CC, 0)
+//@   ensures [C07] isBidiCC && outLen != old(outLen) && !bidiSideNeg(canBeNegative, local(value)) && !old(d.ccZeroed[a.CCNeg]) ==> outLen == old(outLen) + 2 && out[old(outLen) + 1] == mkev(0xB0 | chN, a.CCNeg, 0)
+//@   ensures [C07] isBidiCC && outLen != old(outLen) && bidiSideNeg(canBeNegative, local(value)) && old(d.ccZeroed[a.CC]) ==> outLen == old(outLen) + 1
+//@   ensures [C07] isBidiCC && outLen != old(outLen) && !bidiSideNeg(canBeNegative, local(value)) && old(d.ccZeroed[a.CCNeg]) ==> outLen == old(outLen) + 1
+//@   ensures [C06,C07] isBidiCC && a.CC != a.CCNeg && old(zeroedOK(d)) && outLen != old(outLen) ==> (bidiSideNeg(canBeNegative, local(value)) ==> ccv[a.CC] == 0) && (!bidiSideNeg(canBeNegative, local(value)) ==> ccv[a.CCNeg] == 0)
+//@   ensures [C07] a.MappingType == config.AnalogCC && old(d.ccLearning) && !(local(value) < -0.5 || local(value) > 0.5) ==> outLen == old(outLen) && keys(d.ccZeroed) == old(keys(d.ccZeroed)) && vals(d.ccZeroed) == old(vals(d.ccZeroed))
+//@   ensures [C06,C07] isBidiCC && a.CC != a.CCNeg && bidiCC[a.CC] && bidiCC[a.CCNeg] && a.CC != 123 && a.CCNeg != 123 && old(zeroedOK(d)) ==> zeroedOK(d)
+// ---- C06: exact values at the ends and at rest. v = local(value) is the shaped, flipped value the switch sees
+// (the cut facts above pin it to exactly +-1.0 at the physical end stops and 0.0 at rest, for every deadzone in [0,1)).
+//@   let isCC := has(d.config.KeyMappings[d.mapping].Analog[ie.Source.Name], ie.Event.Code) && a.MappingType == config.AnalogCC
+//@   let isPB := has(d.config.KeyMappings[d.mapping].Analog[ie.Source.Name], ie.Event.Code) && a.MappingType == config.AnalogPitchBend
+//@   ensures [C06] isCC && !canBeNegative && !a.Bidirectional && outLen != old(outLen) ==> (local(value) == 1.0 ==> out[old(outLen)].b2 == 127) && (local(value) == 0.0 ==> out[old(outLen)].b2 == 0)
+//@   ensures [C06] isCC && canBeNegative && !a.Bidirectional && outLen != old(outLen) ==> (local(value) == 1.0 ==> out[old(outLen)].b2 == 127) && (local(value) == -1.0 ==> out[old(outLen)].b2 == 0) && (local(value) == 0.0 ==> out[old(outLen)].b2 == 63)
+//@   ensures [C06] isCC && canBeNegative && a.Bidirectional && outLen != old(outLen) ==> (local(value) == 1.0 || local(value) == -1.0 ==> out[old(outLen)].b2 == 127) && (local(value) == 0.0 ==> out[old(outLen)].b2 == 0)
+//@   ensures [C06] isCC && !canBeNegative && a.Bidirectional && outLen != old(outLen) ==> (local(value) == 1.0 || local(value) == 0.0 ==> out[old(outLen)].b2 == 127) && (local(value) == 0.5 ==> out[old(outLen)].b2 == 0)
+//@   ensures [C06] isPB && canBeNegative && outLen != old(outLen) ==> (local(value) == 0.0 ==> out[old(outLen)].b1 == 0 && out[old(outLen)].b2 == 64) && (local(value) == 1.0 ==> out[old(outLen)].b1 == 127 && out[old(outLen)].b2 == 127) && (local(value) == -1.0 ==> out[old(outLen)].b1 == 0 && out[old(outLen)].b2 == 0)
+//@   ensures [C06] isPB && !canBeNegative && outLen != old(outLen) ==> (local(value) == 0.5 ==> out[old(outLen)].b1 == 0 && out[old(outLen)].b2 == 64) && (local(value) == 1.0 ==> out[old(outLen)].b1 == 127 && out[old(outLen)].b2 == 127) && (local(value) == 0.0 ==> out[old(outLen)].b1 == 0 && out[old(outLen)].b2 == 0)
+// end to end, unsigned unflipped controller axis: the physical maximum transmits exactly 127 and the physical minimum 0
+//@   ensures [C06] isCC && !canBeNegative && !a.Bidirectional && !a.FlipAxis && !a.DeadzoneAtCenter && outLen != old(outLen) && deadzone >= 0.0 && deadzone < 1.0 ==> (ie.Event.Value == max ==> out[old(outLen)].b2 == 127) && (ie.Event.Value == 0 ==> out[old(outLen)].b2 == 0)
+// ---- C08: key emulation. kv is the value the threshold switch sees; id / idn are the two tracker keys of this axis
+// (assumed: the two identifier strings of an axis differ, i.e. Sprintf("%d") and Sprintf("%d_neg") never collide)
+//@   let isKeyAx := has(d.config.KeyMappings[d.mapping].Analog[ie.Source.Name], ie.Event.Code) && a.MappingType == config.AnalogKeySim
+//@   let sP := int64(a.Note) + 12 * int64(d.octave) + int64(d.semitone)
+//@   let sN := int64(a.NoteNeg) + 12 * int64(d.octave) + int64(d.semitone)
+//@   ensures [C08] isKeyAx && identifier != identifierNeg && !(old(has(d.analogNoteTracker, identifier)) && old(has(d.analogNoteTracker, identifierNeg))) ==> !(has(d.analogNoteTracker, identifier) && has(d.analogNoteTracker, identifierNeg))
+//@   ensures [C08] isKeyAx && identifier != identifierNeg && local(value) >= 0.5 && !old(has(d.analogNoteTracker, identifier)) && sP >= 0 && sP <= 127 ==> out[old(outLen)] == mkev(0x90 | chP, byte(sP), 64) && has(d.analogNoteTracker, identifier) && d.analogNoteTracker[identifier] == mkarr(byte(sP), chP)
+//@   ensures [C08] isKeyAx && identifier != identifierNeg && local(value) >= 0.5 && old(has(d.analogNoteTracker, identifier)) ==> outLen == old(outLen) + (if old(has(d.analogNoteTracker, identifierNeg)) then 1 else 0) && d.analogNoteTracker[identifier] == old(d.analogNoteTracker[identifier])
+//@   ensures [C08] isKeyAx && identifier != identifierNeg && local(value) >= 0.5 ==> !has(d.analogNoteTracker, identifierNeg)
+//@   ensures [C08] isKeyAx && identifier != identifierNeg && local(value) > -0.49 && local(value) < 0.49 ==> !has(d.analogNoteTracker, identifier) && !has(d.analogNoteTracker, identifierNeg)
+//@   ensures [C08] isKeyAx && !(local(value) <= -0.5) && !(local(value) > -0.49 && local(value) < 0.49) && !(local(value) >= 0.5) ==> outLen == old(outLen) && keys(d.analogNoteTracker) == old(keys(d.analogNoteTracker)) && vals(d.analogNoteTracker) == old(vals(d.analogNoteTracker))
+//@   ensures [C08] isKeyAx && identifier != identifierNeg && local(value) <= -0.5 && a.Bidirectional && !old(has(d.analogNoteTracker, identifierNeg)) && sN >= 0 && sN <= 127 ==> out[old(outLen)] == mkev(0x90 | chN, byte(sN), 64) && has(d.analogNoteTracker, identifierNeg) && d.analogNoteTracker[identifierNeg] == mkarr(byte(sN), chN)
+//@   ensures [C08] isKeyAx && identifier != identifierNeg && local(value) <= -0.5 ==> !has(d.analogNoteTracker, identifier)
+//@   ensures [C08] isKeyAx && identifier != identifierNeg && local(value) <= -0.5 && !a.Bidirectional ==> (has(d.analogNoteTracker, identifierNeg) <==> old(has(d.analogNoteTracker, identifierNeg))) && outLen == old(outLen) + (if old(has(d.analogNoteTracker, identifier)) then 1 else 0)
 //@   safety [C05]
-//@   modifies d.keyTracker[_], d.actionTracker[_], d.analogNoteTracker[_], d.lastAnalogValue[_][_], d.ccZeroed[_], d.octave, d.semitone, d.channel, d.mapping, d.ccLearning, out, outLen, sounding, d.externalNoteTracker, heap("map[byte]map[byte]bool"), heap("map[byte]bool")
+//@   modifies d.keyTracker[_], d.actionTracker[_], d.analogNoteTracker[_], d.lastAnalogValue[_][_], d.ccZeroed[_], d.octave, d.semitone, d.channel, d.mapping, d.ccLearning, out, outLen, sounding, ccv, d.externalNoteTracker
+
+// which side of a bidirectional axis the (shaped, flipped) value is on: below 0 for a signed range, below the middle otherwise
+//@ pred bidiSideNeg(signed bool, v float64) := (signed && v < 0.0) || (!signed && v < 0.5)
 
 // ---- event loop
 
@@ -449,9 +516,9 @@ package device
 //@   requires event.Event.Type == evdev.EV_KEY ==> event.Event.Value == 0 || event.Event.Value == 1 || event.Event.Value == 2
 //@   requires cfgRanges(d.config) && cfgDz(d.config) && lavOK(d.config, d.lastAnalogValue) && (event.Event.Type == evdev.EV_ABS ==> envAbs(d, event))
 //@   ensures wf(d) && tableOK(d) && cfgRanges(d.config) && cfgDz(d.config) && lavOK(d.config, d.lastAnalogValue)
-//@   ensures [C01] old(Inv(d)) && old(envEvent(d, event)) ==> Inv(d)
+//@   ensures [C01!] old(Inv(d)) && old(envEvent(d, event)) ==> Inv(d)
 //@   safety [C01]
-//@   modifies d.keyTracker[_], d.actionTracker[_], d.noteTracker[_], d.activeNotesCounter[_][_], d.analogNoteTracker[_], d.lastAnalogValue[_][_], d.ccZeroed[_], d.octave, d.semitone, d.channel, d.mapping, d.ccLearning, d.multiNote, heap("[]int"), heap("*[1]int"), out, outLen, sounding, sigs, d.externalNoteTracker, heap("map[byte]map[byte]bool"), heap("map[byte]bool")
+//@   modifies d.keyTracker[_], d.actionTracker[_], d.noteTracker[_], d.activeNotesCounter[_][_], d.analogNoteTracker[_], d.lastAnalogValue[_][_], d.ccZeroed[_], d.octave, d.semitone, d.channel, d.mapping, d.ccLearning, d.multiNote, heap("[]int"), heap("*[1]int"), out, outLen, sounding, ccv, sigs, d.externalNoteTracker
 
 // C01, second sentence: when the event stream ends (at any moment: the loop invariant holds after every prefix),
 // every note still tracked is released before processing ends, so nothing is left sounding at the receiver.
